@@ -39,7 +39,7 @@ def run_programs(chk, n):
                                               "registry:own" if p.get("own_registry") else "registry:default"])
     reps = rc.batch(progs)
     for p, (rep, sp) in zip(progs, reps):
-        real = tplgen.run_real(p, limit=3.0)
+        real = tplgen.run_real(p, limit=20.0)
         chk.count("programs", 1, validated=1)
         chk.errkind(real["err"] or "ok")
         chk.nontrivial(real["out"] or real["err"])
@@ -75,8 +75,8 @@ def run_noninterference(chk, n):
                [["xs", {"l": [tplgen.sval("Z")]}], ["ys", {"l": []}], ["one", {"l": []}], ["sl", {"l": [tplgen.sval("s1")]}]]
         p1 = dict(p, isolated=isolated, lib=lib, entry={"page": page}, ctx=ctx1)
         p2 = dict(p1, ctx=ctx2)
-        a = tplgen.run_real(p1, limit=3.0)
-        b = tplgen.run_real(p2, limit=3.0)
+        a = tplgen.run_real(p1, limit=20.0)
+        b = tplgen.run_real(p2, limit=20.0)
         chk.count("noninterference", 1, validated=2)
         oa = a["err"] or tplgen.canon_real(a["out"], a["hash2name"])
         ob = b["err"] or tplgen.canon_real(b["out"], b["hash2name"])
